@@ -1,6 +1,7 @@
 (* Proofs/ValidatorsP.v — each generated validator rejects exactly the arguments NumPy rejects
    (Spec/NpValid.v), with the exception class the property demands. *)
 From Coq Require Import ZArith List Bool Lia ZifyBool.
+From Coq Require String.
 From Verif Require Import Py PyExt PyValid G_slicing G_validators S_validators NpValid Validators.
 Import ListNotations.
 Open Scope Z_scope.
@@ -384,6 +385,193 @@ Proof.
   - apply orb_false_iff in Hr. destruct Hr as [H1 H2]. cbn. rewrite H1. cbn. rewrite H2. cbn. split; congruence.
   - cbn. destruct (fold_left Z.min r a <? 0) eqn:H1; cbn; [split; congruence|].
     cbn in Hr. rewrite Hr. cbn. split; congruence.
+Qed.
+
+(* ---------------------------------------------------------------- rejection precedes any kernel call *)
+Lemma no_kernel_app t1 t2 : no_kernel t1 -> no_kernel t2 -> no_kernel (t1 ++ t2).
+Proof. unfold no_kernel. intros H1 H2. rewrite forallb_app, H1, H2. reflexivity. Qed.
+
+Lemma chk_mono p : forall k, chk p true = Go k -> k = true.
+Proof.
+  induction p; intros k; cbn [chk]; try congruence.
+  - destruct (chk p1 true) as [| |k1] eqn:E1; try congruence. rewrite (IHp1 k1 eq_refl). apply IHp2.
+  - destruct (chk p1 true) as [| |k1] eqn:E1; destruct (chk p2 true) as [| |k2] eqn:E2; cbn; try congruence.
+    + intros H; inversion H; subst. apply IHp2. reflexivity.
+    + intros H; inversion H; subst. apply IHp1. reflexivity.
+    + intros H; inversion H; subst. rewrite (IHp1 k1 eq_refl). reflexivity.
+  - destruct (chk p true) as [| |k1] eqn:E1; try congruence.
+    rewrite (IHp k1 eq_refl). cbn. congruence.
+Qed.
+
+Lemma chk_loop_true b : chk (PLoop b) false <> Bad -> forall K1, chk b false = Go K1 -> chk (PLoop b) K1 <> Bad.
+Proof.
+  intros H K1 E. destruct K1; [|exact H].
+  cbn [chk] in *. rewrite E in H. cbn in H.
+  destruct (chk b true) as [| |k2] eqn:E2; try congruence.
+  rewrite (chk_mono b k2 E2). cbn. congruence.
+Qed.
+
+Lemma chk_sound p t o :
+  exec p t o -> forall K, chk p K <> Bad ->
+  match o with
+  | Raised => K = false /\ no_kernel t
+  | Fall => exists K', chk p K = Go K' /\ (K = true -> K' = true) /\ (K' = false -> no_kernel t)
+  | Ret => True
+  end.
+Proof.
+  induction 1; intros K HK.
+  - exists K. repeat split; auto.
+  - (* seq, first part falls through *)
+    cbn [chk] in HK. destruct (chk a K) as [| |K1] eqn:Ea; try congruence.
+    { destruct (IHexec1 K ltac:(congruence)) as [? [E _]]. congruence. }
+    destruct (IHexec1 K ltac:(congruence)) as [K1' [E1 [M1 N1]]]. assert (K1' = K1) by congruence. subst K1'.
+    specialize (IHexec2 K1 HK). destruct o.
+    + destruct IHexec2 as [K' [E2 [M2 N2]]]. exists K'. cbn [chk]. rewrite Ea. split; [assumption|]. split.
+      * intros HKt. apply M2, M1, HKt.
+      * intros HK'. assert (K1 = false) by (destruct K1; [specialize (M2 eq_refl); congruence|reflexivity]).
+        apply no_kernel_app; auto.
+    + exact I.
+    + destruct IHexec2 as [HK1 N2]. split.
+      * destruct K; [specialize (M1 eq_refl); congruence|reflexivity].
+      * apply no_kernel_app; auto.
+  - (* seq, first part stops *)
+    cbn [chk] in HK. assert (chk a K <> Bad) by (destruct (chk a K); congruence).
+    specialize (IHexec K H1). destruct o; [congruence|exact I|exact IHexec].
+  - cbn [chk] in *. destruct K; [congruence|]. exists false. repeat split; auto.
+  - cbn [chk] in *. destruct K; [congruence|]. split; reflexivity.
+  - exists true. cbn [chk]. repeat split; auto. discriminate.
+  - cbn [chk] in *. destruct K; [congruence|]. split; reflexivity.
+  - exact I.
+  - (* if, left *)
+    cbn [chk] in HK. assert (Ha : chk a K <> Bad) by (destruct (chk a K); cbn in HK; congruence).
+    specialize (IHexec K Ha). destruct o; try assumption.
+    destruct IHexec as [Ka [E [M N]]]. cbn [chk]. rewrite E in *.
+    destruct (chk b K) as [| |Kb] eqn:Eb; cbn in *; try congruence.
+    + exists Ka. auto.
+    + exists (Ka || Kb). split; [reflexivity|]. split.
+      * intros HKt. rewrite (M HKt). reflexivity.
+      * intros HK'. apply orb_false_iff in HK'. apply N, HK'.
+  - (* if, right *)
+    cbn [chk] in HK. assert (Hb : chk b K <> Bad) by (destruct (chk a K); destruct (chk b K); cbn in HK; congruence).
+    specialize (IHexec K Hb). destruct o; try assumption.
+    destruct IHexec as [Kb [E [M N]]]. cbn [chk]. rewrite E in *.
+    destruct (chk a K) as [| |Ka] eqn:Ea; cbn in *; try congruence.
+    + exists Kb. auto.
+    + exists (Ka || Kb). split; [reflexivity|]. split.
+      * intros HKt. rewrite (M HKt). apply orb_true_r.
+      * intros HK'. apply orb_false_iff in HK'. apply N, HK'.
+  - (* loop, zero iterations *)
+    cbn [chk] in *. destruct (chk b K) as [| |K1] eqn:Eb; try congruence.
+    + exists K. repeat split; auto.
+    + destruct (Bool.eqb K1 K) eqn:Eq.
+      * exists K. repeat split; auto.
+      * exists K1. split; [destruct (chk b K1); congruence|]. split; [|reflexivity].
+        intros ->. rewrite (chk_mono b K1 Eb) in Eq. discriminate.
+  - (* loop, one more iteration *)
+    assert (Hb : chk b K <> Bad) by (cbn [chk] in HK; destruct (chk b K); congruence).
+    destruct (IHexec1 K Hb) as [K1 [E1 [M1 N1]]].
+    assert (HK1 : chk (PLoop b) K1 <> Bad).
+    { destruct K; [rewrite (M1 eq_refl); exact HK|]. apply chk_loop_true; assumption. }
+    specialize (IHexec2 K1 HK1). destruct o.
+    + destruct IHexec2 as [K' [E2 [M2 N2]]].
+      destruct (Bool.eqb K1 K) eqn:Eq.
+      * apply eqb_prop in Eq. subst K1. exists K'. split; [assumption|]. split; [assumption|].
+        intros HK'. apply no_kernel_app; [apply N1|apply N2; assumption].
+        destruct K; [specialize (M2 eq_refl); congruence|reflexivity].
+      * assert (K = false /\ K1 = true) as [-> ->] by (destruct K, K1; cbn in Eq; try discriminate; [specialize (M1 eq_refl); discriminate|auto]).
+        exists true. cbn [chk] in *. rewrite E1 in *. cbn in *. split; [destruct (chk b true); congruence|].
+        split; [discriminate|discriminate].
+    + exact I.
+    + destruct IHexec2 as [HK1f N2]. subst K1. split.
+      * destruct K; [specialize (M1 eq_refl); congruence|reflexivity].
+      * apply no_kernel_app; auto.
+  - (* loop, body stops *)
+    assert (Hb : chk b K <> Bad) by (cbn [chk] in HK; destruct (chk b K); congruence).
+    specialize (IHexec K Hb). destruct o; [congruence|exact I|exact IHexec].
+Qed.
+
+(* a skeleton that passes the static check never executes a kernel / constructor step on a run that
+   ends in a rejection (a rejecting validator call or a `raise`) *)
+Theorem rejection_precedes_kernels_gen :
+  forall p t, validators_first p = true -> exec p t Raised -> no_kernel t.
+Proof.
+  intros p t Hv Hx. unfold validators_first in Hv.
+  assert (chk p false <> Bad) by (destruct (chk p false); congruence).
+  exact (proj2 (chk_sound p t Raised Hx false H)).
+Qed.
+
+(* ... and the skeletons extracted from /repo on this run all pass it *)
+Lemma site_programs_checked : forallb (fun np => validators_first (snd np)) site_programs = true.
+Proof. vm_compute. reflexivity. Qed.
+
+Theorem rejection_precedes_kernels_proof :
+  forall name p t, In (name, p) site_programs -> exec p t Raised -> no_kernel t.
+Proof.
+  intros name p t Hin Hx. apply (rejection_precedes_kernels_gen p); [|assumption].
+  pose proof site_programs_checked as H. rewrite forallb_forall in H. exact (H (name, p) Hin).
+Qed.
+
+(* the check is not vacuous: a kernel before a guard is caught *)
+Example validators_first_catches :
+  validators_first (PSeq (PKer String.EmptyString) (PIf PRaise PSkip)) = false /\
+  validators_first (PSeq (PIf PRaise PSkip) (PKer String.EmptyString)) = true /\
+  (forall n k, exec (PSeq (PVal n) (PKer k)) [EVal n] Raised) /\
+  site_programs <> [].
+Proof.
+  repeat split; [|discriminate]. intros n k. apply XSeqStop; [apply XValRej|discriminate].
+Qed.
+
+(* ---------------------------------------------------------------- all modelled operations at once *)
+Lemma bct_rev_len a b : bct_rev a b = true -> (length a <= length b)%nat.
+Proof.
+  revert b; induction a as [|x a IH]; intros [|y b]; cbn; try discriminate; try lia.
+  rewrite andb_true_iff. intros [_ H]. specialize (IH b H). lia.
+Qed.
+
+(* valid arguments (NumPy accepts): the generated validators raise nothing at all — in particular no
+   internal class (OtherError / OverflowError / ZeroDivisionError / TypeError from the translated code) *)
+Theorem valid_args_no_internal_error_proof :
+  forall m : vop, vop_np_accepts m = true -> model_verdict m = None \/ model_verdict m = Some None.
+Proof.
+  intros m H. destruct m; cbn [vop_np_accepts model_verdict] in *; try (left; reflexivity); right; f_equal.
+  - rewrite (normalize_axis_ok _ _ H). reflexivity.
+  - rewrite (normalize_axes_ok _ _ H). reflexivity.
+  - rewrite (proj1 (validator_transpose_spec_proof axes ndim) H). reflexivity.
+  - rewrite (proj1 (validator_check_index_spec_proof i dim) H). reflexivity.
+  - rewrite (proj1 (validator_reshape_spec_proof size sh) H). reflexivity.
+  - pose proof (validator_broadcast_spec_proof s1 s2) as S. destruct (np_broadcast s1 s2); [rewrite S; reflexivity|discriminate].
+  - pose proof (validator_broadcast_to_partial_proof s target) as S. unfold np_broadcast_to in *.
+    destruct (bct_rev (rev s) (rev target)) eqn:E; [|discriminate].
+    apply bct_rev_len in E. rewrite !rev_length in E. rewrite (S E). reflexivity.
+  - rewrite (proj1 (validator_tensordot_spec_proof ea eb) H). reflexivity.
+  - rewrite (proj1 (validator_coo_init_spec_proof ndata ncols nshape nrows)); [reflexivity|].
+    apply negb_true_iff in H. exact H.
+  - rewrite (proj1 (validator_caxes_spec_proof ndim ca) H). reflexivity.
+  - apply Z.eqb_eq in H. rewrite (proj1 (validator_dot_1d_spec_proof la lb) H). reflexivity.
+Qed.
+
+(* invalid arguments: a clean class, before anything else (see rejection_precedes_kernels) — except
+   broadcast_to with an operand of more axes than the target (validator_broadcast_to_refuted) *)
+Theorem invalid_args_clean_rejection_proof :
+  forall m : vop, vop_np_accepts m = false ->
+    (forall s target, m = MBroadcastTo s target -> (length s <= length target)%nat) ->
+    exists e, model_verdict m = Some (Some e) /\ clean e = true.
+Proof.
+  intros m H Hb. destruct m; cbn [vop_np_accepts model_verdict] in *; try discriminate.
+  - rewrite (normalize_axis_bad _ _ H). eexists; split; reflexivity.
+  - rewrite (normalize_axes_bad _ _ H). eexists; split; reflexivity.
+  - rewrite (proj2 (validator_transpose_spec_proof axes ndim) H). eexists; split; reflexivity.
+  - rewrite (proj2 (validator_check_index_spec_proof i dim) H). eexists; split; reflexivity.
+  - rewrite (proj2 (validator_reshape_spec_proof size sh) H). eexists; split; reflexivity.
+  - pose proof (validator_broadcast_spec_proof s1 s2) as S. destruct (np_broadcast s1 s2); [discriminate|].
+    rewrite S. eexists; split; reflexivity.
+  - pose proof (validator_broadcast_to_partial_proof s target (Hb s target eq_refl)) as S.
+    destruct (np_broadcast_to s target); [discriminate|]. rewrite S. eexists; split; reflexivity.
+  - rewrite (proj2 (validator_tensordot_spec_proof ea eb) H). eexists; split; reflexivity.
+  - rewrite (proj2 (validator_coo_init_spec_proof ndata ncols nshape nrows)); [eexists; split; reflexivity|].
+    apply negb_false_iff in H. exact H.
+  - rewrite (proj2 (validator_caxes_spec_proof ndim ca) H). eexists; split; reflexivity.
+  - apply Z.eqb_neq in H. rewrite (proj2 (validator_dot_1d_spec_proof la lb) H). eexists; split; reflexivity.
 Qed.
 
 (* ---------------------------------------------------------------- non-vacuity *)
